@@ -180,13 +180,18 @@ def diff_streams(lines, answers):
         op, impl = l.split(' => ', 1)
         if case_start in failed_cases:
             continue
-        if spec != '*' and impl != spec:
+        if spec != '*' and norm_err(impl) != norm_err(spec):
             fails.append(dict(kind='violation', line_no=i, case_start=case_start, op=op, impl=impl, model=model, spec=spec))
             failed_cases.add(case_start)
         elif impl != model:
             fails.append(dict(kind='drift', line_no=i, case_start=case_start, op=op, impl=impl, model=model, spec=spec))
             failed_cases.add(case_start)
     return fails
+
+
+def norm_err(a):
+    # the specification says *that* an operation fails, the model says *how*
+    return re.sub(r'\berr:\S+', 'err', a)
 
 
 def case_text(lines, start, upto):
